@@ -429,7 +429,7 @@ func branchedPhis(fn *ssa.Function) map[*ssa.Phi]bool {
 	}
 	m := map[*ssa.Phi]bool{}
 	for _, b := range fn.Blocks {
-		if p, _ := condPhi(b); p != nil && p.Block() != b {
+		if p, _ := condPhi(b); p != nil {
 			m[p] = true
 		}
 	}
@@ -472,6 +472,9 @@ func phiEntryFacts(facts string, from, to *ssa.BasicBlock) string {
 	}
 	for _, p := range mine {
 		id := fmt.Sprintf("phi%p", p)
+		if idx >= 0 && idx < len(p.Edges) && p.Edges[idx] == ssa.Value(p) {
+			continue // loop-carried unchanged: what is known about it stays true
+		}
 		var out []string
 		for _, f := range fs {
 			if !strings.HasPrefix(f, id+":") {
@@ -516,7 +519,7 @@ func phiFactInfeasible(facts string, b *ssa.BasicBlock, k int) bool {
 		return false
 	}
 	p, kind := condPhi(b)
-	if p == nil || p.Block() == b {
+	if p == nil {
 		return false
 	}
 	id := fmt.Sprintf("phi%p", p) + ":"
